@@ -1,6 +1,7 @@
 import KamalProxy.Driver.Control
 import KamalProxy.Driver.Rollout
 import KamalProxy.Driver.Buffer
+import KamalProxy.Driver.Proxy
 open KamalProxy
 
 /-- one engine = a state type, an initial state and a line step; `reset` starts a new case -/
@@ -25,4 +26,5 @@ def main (args : List String) : IO UInt32 := do
   | ["snapshot"] => loop stdin stdout State.init Driver.Control.stepLine State.init; return 0
   | ["rollout"] => loop stdin stdout () Driver.Rollout.stepLine (); return 0
   | ["buffer"] => loop stdin stdout () Driver.Buffer.stepLine (); return 0
+  | ["proxy"] => loop stdin stdout ({} : Proxy.World) Driver.Proxy.stepLine {}; return 0
   | _ => IO.eprintln "usage: kpmodel <engine>"; return 2
